@@ -253,8 +253,109 @@ func v17AbacoPipeline(x *vexp.X, sc *v17Scenario) (*vhook.Sched, func()) {
 	return s, src.stopTickers
 }
 
+// ---- Lancero pipeline: scripted card (the C04 one), real StartRun/launchLanceroReader/getNextBlock worker/
+// ConfigureMixFraction/distributeData/CoreLoop/ProcessSegments. Sample() is bypassed (sampleCard needs hardware
+// pacing): the geometry is set directly, as in C04. The reader's ticker is the same seam as for Abaco.
+type v17Lancero struct {
+	*LanceroSource
+	done   chan struct{}
+	blocks int // processed blocks (written by the core loop only; read after the execution)
+	nsamp  int
+}
+
+// v17Work describes what the last execution got done (part of the outcome: shows the scenario is not vacuous)
+var v17Work string
+
+func (l *v17Lancero) Sample() error { return nil }
+
+func (l *v17Lancero) ProcessSegments(b *dataBlock) error {
+	err := l.LanceroSource.ProcessSegments(b)
+	l.blocks++
+	l.nsamp += len(b.segments[0].rawData)
+	select {
+	case l.done <- struct{}{}:
+	default:
+	}
+	return err
+}
+
+func v17NewLancero() (*v17Lancero, *v04Card) {
+	g := v04Geom{2, 2}
+	words := g.ncols * g.nrows
+	frameSize := 4 * words
+	sc := &v04Script{g: g, mixAt: -1}
+	sc.ext = make([][]bool, v04Frames)
+	for f := range sc.ext {
+		sc.ext[f] = make([]bool, g.nrows)
+	}
+	sc.ext[4][1], sc.ext[9][0] = true, true
+	for _, nf := range []int{3, 7, 11, 15, 20} { // start-up read, then one read per tick
+		sc.avail = append(sc.avail, nf*frameSize)
+	}
+	card, _ := sc.build()
+	ls := &LanceroSource{}
+	ls.name = "Lancero"
+	ls.nsamp = 1
+	dev := &LanceroDevice{devnum: 0, card: card, ncols: g.ncols, nrows: g.nrows, frameSize: frameSize, clockMHz: 125, lsync: 1250 / g.nrows}
+	ls.devices = map[int]*LanceroDevice{0: dev}
+	ls.active = []*LanceroDevice{dev}
+	ls.ncards = 1
+	ls.firstRowChanNum = 1
+	ls.nchan = 2 * words
+	ls.sampleRate = 1e5
+	ls.samplePeriod = 10 * time.Microsecond
+	ls.updateChanOrderMap()
+	ls.mixRequests = make(chan *MixFractionObject)
+	ls.currentMix = make(chan []float64)
+	return &v17Lancero{LanceroSource: ls, done: make(chan struct{}, 16)}, card
+}
+
+func v17LanceroPipeline(x *vexp.X, sc *v17Scenario) (*vhook.Sched, func()) {
+	src, _ := v17NewLancero()
+	v17Ticks = make(chan time.Time)
+	queued := make(chan func())
+	started := make(chan struct{})
+	var mix []float64
+	s := vhook.Run(x, vhook.Options{MaxSteps: 1500, Names: []string{"control", "clock"}, DelayBound: true},
+		func() {
+			if err := Start(src, queued, 3, 6); err != nil {
+				panic("harness: Lancero Start failed: " + err.Error())
+			}
+			close(started)
+			<-src.done // a block has been processed
+			var err error
+			if mix, err = src.ConfigureMixFraction(&MixFractionObject{ChannelIndices: []int{1, 3}, MixFractions: []float64{0.5, 0.25}}); err != nil {
+				panic("harness: ConfigureMixFraction failed: " + err.Error())
+			}
+			<-src.done
+			src.Stop()
+		},
+		func() {
+			<-started
+			for i := 0; i < 6; i++ {
+				vhook.PSC(921, []interface{}{v17Ticks, src.abortSelf}, []bool{true, false}, false)
+				select {
+				case v17Ticks <- time.Time{}:
+					vhook.C(0)
+				case <-src.abortSelf:
+					vhook.C(1)
+					return
+				}
+			}
+		})
+	return s, func() {
+		v17Work = fmt.Sprintf("blocks=%d samples=%d mix=%v", src.blocks, src.nsamp, mix)
+		if src.numberWrittenTicker != nil {
+			src.numberWrittenTicker.Stop()
+			src.writingState.externalTriggerTicker.Stop()
+			src.writingState.dataDropTicker.Stop()
+		}
+	}
+}
+
 func v17Run(x *vexp.X, sc *v17Scenario) vexp.Result {
 	vhook.NewRaceReports() // discard anything reported outside an execution
+	v17Work = ""
 	s, cleanup := sc.run(x, sc)
 	out := s.Outcome()
 	surv := s.Release(3 * time.Second)
@@ -292,7 +393,7 @@ func v17Run(x *vexp.X, sc *v17Scenario) vexp.Result {
 			fmt.Fprintf(os.Stderr, "SELFTEST-REPORT %s\n", r.Class)
 		}
 	}
-	return vexp.Result{Nontrivial: out.Preempt > 0, Outcome: fmt.Sprintf("steps=%d harness-only-reports=%d", out.Steps/50, nh)}
+	return vexp.Result{Nontrivial: out.Preempt > 0, Outcome: fmt.Sprintf("steps=%d harness-only-reports=%d %s", out.Steps/50, nh, v17Work)}
 }
 
 func TestVerifC17(t *testing.T) {
@@ -306,11 +407,12 @@ func TestVerifC17(t *testing.T) {
 	if r.Thorough() {
 		pb = 2
 	}
-	r.SetBound(fmt.Sprintf("race-detector build; all interleavings (all select alternatives) with at most %d preemptions (life cycle) / at most as many scheduling deviations of any kind (thread choice or select alternative) from the canonical schedule (delay bounding, pipeline) of: (pipeline) one client issuing trigger, group-trigger, write-control, raw-block, comment, state-label, send-all and stop requests against a running two-channel source with pulses, LJH2.2+LJH3 writing, group trigger, record/summary/status consumers; (life cycle) Start with two concurrent Stop callers; (Abaco pipeline) real Start/readerMainLoop/getNextBlock/distributeData/CoreLoop with a scripted packet producer (two groups, one lagging, one lost packet), clock thread and Stop", pb))
+	r.SetBound(fmt.Sprintf("race-detector build; all interleavings (all select alternatives) with at most %d preemptions (life cycle) / at most as many scheduling deviations of any kind (thread choice or select alternative) from the canonical schedule (delay bounding, pipeline) of: (pipeline) one client issuing trigger, group-trigger, write-control, raw-block, comment, state-label, send-all and stop requests against a running two-channel source with pulses, LJH2.2+LJH3 writing, group trigger, record/summary/status consumers; (life cycle) Start with two concurrent Stop callers; (Abaco pipeline) real Start/readerMainLoop/getNextBlock/distributeData/CoreLoop with a scripted packet producer (two groups, one lagging, one lost packet), clock thread and Stop; (Lancero pipeline) real StartRun/launchLanceroReader/getNextBlock/ConfigureMixFraction/distributeData/CoreLoop with a scripted card (2x2 geometry, 20 frames in 5 reads, external-trigger bits), clock thread, one mix request and Stop", pb))
 	scs := []*v17Scenario{
 		{name: "pipeline", run: v17Pipeline, bound: pb}, // delay-bounded (see vhook.Options.DelayBound)
 		{name: "lifecycle", run: v17LifeCycle, bound: pb},
 		{name: "abaco-pipeline", run: v17AbacoPipeline, bound: pb},
+		{name: "lancero-pipeline", run: v17LanceroPipeline, bound: pb},
 	}
 	if os.Getenv("VERIF_SELFTEST") != "" {
 		scs = []*v17Scenario{{name: "selftest", run: v17SelfTest, bound: 1}}
